@@ -338,10 +338,62 @@ def k4(prog, ctx):
             ctx.ok("K4", "%s:%d" % (m.rel, n.lineno), "%s indexes the window relative to all_read_region_start" % q)
 
 
+def k4_sites(prog, ctx):
+    """Every place that sets a reference window sets it to the scope the genes were fetched for (or restores / widens it)."""
+    n = 0
+    for m, q, f in prog.all_functions():
+        if q == "GeneInfo.set_reference_sequence":
+            continue
+        for c in walk_no_nested(f):
+            if not isinstance(c, ast.Call):
+                continue
+            cn = call_name(c) or ""
+            if cn.endswith(".set_reference_sequence") and len(c.args) >= 2:
+                a, b = c.args[0], c.args[1]
+                recv = src(c.func.value)
+            elif cn.endswith("GeneInfo.from_region") and len(c.args) >= 3 and (len(c.args) >= 5 or any(k.arg == "chr_record" for k in c.keywords)):
+                a, b = c.args[1], c.args[2]
+                recv = None
+            else:
+                continue
+            n += 1
+            ta, tb = src(a), src(b)
+            # scope of the gene fetch in the same function
+            fetch = [x for x in walk_no_nested(f) if isinstance(x, ast.Call) and isinstance(x.func, ast.Attribute) and x.func.attr == "region"
+                     and any(k.arg == "featuretype" for k in x.keywords)]
+            kinds = []
+            for x in fetch:
+                kw = {k.arg: src(k.value) for k in x.keywords}
+                if kw.get("start") == "1" and "end" not in kw:
+                    kinds.append(("1", "len(chr_record)"))
+                elif "start" in kw and "end" in kw:
+                    kinds.append((kw["start"], kw["end"]))
+            defs = {}
+            for st in walk_no_nested(f):
+                if isinstance(st, ast.Assign) and len(st.targets) == 1 and isinstance(st.targets[0], ast.Name):
+                    defs.setdefault(st.targets[0].id, []).append(st.value)
+            ra = src(defs[ta][0]) if ta in defs and len(defs[ta]) == 1 else ta
+            rb = src(defs[tb][0]) if tb in defs and len(defs[tb]) == 1 else tb
+            if kinds and (ta, tb) in kinds:
+                ctx.ok("K4", "%s:%d" % (m.rel, c.lineno), "%s: window (%s, %s) = the scope the genes were fetched for" % (q, ta, tb))
+            elif recv and ta == recv + ".all_read_region_start" and tb == recv + ".all_read_region_end":
+                ctx.ok("K4", "%s:%d" % (m.rel, c.lineno), "%s: restores the stored window of the same object" % q)
+            elif ra.startswith("min(") and "all_read_region_start" in ra and rb.startswith("max(") and "all_read_region_end" in rb:
+                ctx.ok("K4", "%s:%d" % (m.rel, c.lineno), "%s: widens the current window (min/max)" % q)
+            else:
+                ctx.fail("K4", c, q, src(c)[:100], "the reference window is set to (%s, %s), which is neither the scope the genes of this "
+                         "function are fetched for %s, nor the stored window, nor a min/max widening of it: features checked against this "
+                         "gene_info outside (%s, %s) read wrong dinucleotides (or none) and get a wrong Canonical flag / strand"
+                         % (ta, tb, kinds or "(no fetch here)", ta, tb))
+    ctx.floor("K4", "reference-window setting sites", n, 5)
+
+
 def run(prog, ctx):
     ctx.rule("K4", "the stage-2 loader widens gene_info's reference window (set_reference_sequence(min(start, read start), max(end, "
-                   "read end), chr_record)) for every loaded read before handing it on; all users index relative to that window")
+                   "read end), chr_record)) for every loaded read before handing it on; all users index relative to that window; every "
+                   "site that sets a window sets it to the scope its genes were fetched for, restores the stored one, or widens it")
     k4(prog, ctx)
+    k4_sites(prog, ctx)
     ctx.rule("K3", "CANONICAL_REV_SITES equals the reverse complement of CANONICAL_FWD_SITES, entry by entry (literal tables evaluated)")
     k3(prog, ctx)
     ctx.rule("K1", "for every lookup-or-compute memo (if k not in D: D[k] = v; ... D[k] read back), the data- and control-"
